@@ -10,9 +10,51 @@ pub fn run_memcheck_stage(sub_prop: &str, st: &mut Stats, tier: Tier, seed: u64)
     if std::env::var("FV_NO_MEMCHECK").is_ok() {
         return;
     }
+    // valgrind 3.19 itself can die ("VALGRIND INTERNAL ERROR ... the
+    // 'impossible' happened", SIGSEGV while decoding) when generated code
+    // ends within a few bytes of the end of its mapping: its decoder reads
+    // ahead into the unmapped page (about one program in a hundred). That
+    // is a failure of the tool, not an observation about the code under
+    // test. The workload is therefore split into short independent valgrind
+    // processes (run in parallel); what a process reported before it died is
+    // kept, the rest of that shard is lost and counted, and the stage is
+    // inconclusive only if fewer than half of the shards ran to the end.
+    let total = crate::props::lookup(sub_prop).map(|p| p.n_cases(tier)).unwrap_or(8).max(1);
+    let shards = tier.pick(4u64, 12u64).min(total);
+    let per = total.div_ceil(shards);
+    let results: Vec<(Stats, bool)> = std::thread::scope(|sc| {
+        let hs: Vec<_> = (0..shards)
+            .map(|k| {
+                sc.spawn(move || {
+                    let mut cur = Stats::default();
+                    let died = attempt_once(sub_prop, k, &mut cur, tier, seed.wrapping_add(k * 7919), per);
+                    (cur, died)
+                })
+            })
+            .collect();
+        hs.into_iter().map(|h| h.join().unwrap_or((Stats::default(), true))).collect()
+    });
+    let mut survived = 0;
+    for (mut cur, died) in results {
+        if died {
+            cur.inconclusive.clear();
+            st.inc("memcheck_shards_lost(valgrind_internal_error)");
+        } else {
+            survived += 1;
+        }
+        st.merge(cur);
+    }
+    st.add("memcheck_shards", shards);
+    if survived * 2 < shards {
+        st.inconclusive.push(format!("valgrind died with an internal error in {} of {shards} memcheck shards", shards - survived));
+    }
+}
+
+/// One memcheck run; returns true when valgrind itself died
+fn attempt_once(sub_prop: &str, shard: u64, st: &mut Stats, tier: Tier, seed: u64, cases: u64) -> bool {
     let root = verif_dir();
     let exe = format!("{root}/harness/target/release/fv");
-    let out_root = format!("{root}/harness/target/memcheck-{sub_prop}");
+    let out_root = format!("{root}/harness/target/memcheck-{sub_prop}-{shard}");
     let _ = std::fs::remove_dir_all(&out_root);
     let _ = std::fs::create_dir_all(&out_root);
     let _ = std::fs::copy(format!("{root}/known_findings.json"), format!("{out_root}/known_findings.json"));
@@ -22,7 +64,7 @@ pub fn run_memcheck_stage(sub_prop: &str, st: &mut Stats, tier: Tier, seed: u64)
         .args(["--smc-check=all-non-file", "-q", "--error-exitcode=9", "--num-callers=20", "--errors-for-leak-kinds=none", "--leak-check=no"])
         .arg(format!("--log-file={log}"))
         .arg(&exe)
-        .args([sub_prop, tier.name(), "--seed", &format!("{}", seed as i64)])
+        .args([sub_prop, tier.name(), "--seed", &format!("{}", seed as i64), "--cases", &format!("{cases}")])
         .env("FV_ROOT", &out_root)
         .env("FV_NO_GUARD", "1")
         .env("FV_INPROCESS", "1")
@@ -32,7 +74,7 @@ pub fn run_memcheck_stage(sub_prop: &str, st: &mut Stats, tier: Tier, seed: u64)
     st.add("memcheck_seconds", t0.elapsed().as_secs());
     let Ok(run) = run else {
         st.inconclusive.push("could not start valgrind".into());
-        return;
+        return false;
     };
     let stdout = String::from_utf8_lossy(&run.stdout).to_string();
     for line in stdout.lines() {
@@ -47,6 +89,7 @@ pub fn run_memcheck_stage(sub_prop: &str, st: &mut Stats, tier: Tier, seed: u64)
         st.violation(0, format!("memcheck_run:{sig}"), format!("under valgrind: {line}"), serde_json::json!(null));
     }
     let text = std::fs::read_to_string(&log).unwrap_or_default();
+    let tool_died = text.contains("VALGRIND INTERNAL ERROR") || text.contains("the 'impossible' happened");
     // error blocks start with "==pid== <Kind>" lines that are not indented
     let mut seen = std::collections::BTreeSet::new();
     let mut errors = 0u64;
@@ -87,4 +130,5 @@ pub fn run_memcheck_stage(sub_prop: &str, st: &mut Stats, tier: Tier, seed: u64)
         st.inconclusive.push(format!("memcheck run executed no case (exit {:?})", run.status.code()));
     }
     st.inc("memcheck_stage_ran");
+    tool_died
 }
